@@ -98,6 +98,8 @@ def load_repo(src=None, force=False):
     import pyModeS
     assert pyModeS.common.__name__ == "pyModeS.py_common", pyModeS.common.__name__
     assert pyModeS.__file__.startswith(src), pyModeS.__file__
+    from . import stubs
+    stubs.install(pyModeS)
     _loaded = pyModeS
     return pyModeS
 
